@@ -1,0 +1,20 @@
+//go:build verif
+
+package bsonkit
+
+// VerifEntry is one (key tuple, document) entry of an index.
+type VerifEntry struct {
+	Keys []interface{}
+	Doc  Doc
+}
+
+// VerifEntries returns all entries of the index in btree order. It is only
+// available with the verif build tag and used by the verification harness.
+func (i *Index) VerifEntries() []VerifEntry {
+	entries := make([]VerifEntry, 0, i.btree.Len())
+	i.btree.Scan(func(e indexEntry) bool {
+		entries = append(entries, VerifEntry{Keys: e.keys, Doc: e.doc})
+		return true
+	})
+	return entries
+}
